@@ -1,5 +1,6 @@
 import CM.Proofs.ParseScanMain
 import CM.Ops.TailHyp
+import CM.Proofs.ParseScanTail
 /-
 C02 / C04, inline halves, connected to the block phase (session 4, sixth wave; 40 proof files `ParseScan*`).
 
@@ -50,6 +51,12 @@ theorem blockphase_tokNP : type_of% @PSc.blockphase_tokNP := @PSc.blockphase_tok
 /-- C02 / C04 inline halves for the whole of `Parse`, given the scanner facts of the roots' trees. -/
 theorem parse_spans_of : type_of% @PSc.parse_spansOK_nodes_of := @PSc.parse_spansOK_nodes_of
 theorem parse_noPanic_of : type_of% @PSc.parse_rewrite_noPanic_of := @PSc.parse_rewrite_noPanic_of
+
+/-- Every container whose last child ends where the root's source ends has all its scanner facts, no tail hypothesis. -/
+theorem blockphase_contOK2_atEnd : type_of% @PSc.blockphase_contOK2_atEnd := @PSc.blockphase_contOK2_atEnd
+/-- Line-level core of `TailSafe` for ATX headings: the content `parseATXHeading` returns ends before white space, `#` or the end of
+    the line (the block-phase invariant carrying this to the tree is the missing link; `tailhyp` evaluates it per document). -/
+theorem parseATXHeading_after : type_of% @PSc.parseATXHeading_after := @PSc.parseATXHeading_after
 
 /-- The run-time monitor `tailhyp` (asked for the documents of every C02 run) computes exactly the two tail facts. -/
 theorem tail_monitor_exact : type_of% @CM.Ops.tailsOKb_iff := @CM.Ops.tailsOKb_iff
